@@ -879,6 +879,94 @@ def hashbyte(p, obj, off):
 # ---------------------------------------------------------------------------
 # PBKDF2 (RFC 8018 section 5.2 with TinyJAMBU-HMAC as PRF)
 
+def _pbkdf2_small_path(f, ex, p, cnt, L, A, PW, PL, SALT, SL, OUTP, START):
+    evs = [e for e in calls(p) if e[2] not in ("tinyjambu_hmac_free", "tinyjambu_clean")]
+    # a password hashed once up front: HMAC hashes a key longer than its 64-byte block before use, so keying with the digest of the password is
+    # keying with the password - exactly when the password is longer than 64 bytes on this path and the digest is still in its buffer
+    hashes = [e for e in evs if e[2] == "tinyjambu_hash"]
+    if hashes:
+        fixed = []
+        for e in evs:
+            if e[2] == "tinyjambu_hash":
+                if tuple(e[3][1:3]) != (PW, PL) or not str(e[3][0]).startswith("alloca"):
+                    raise Broken("tinyjambu_pbkdf2: a hash call that is not digest-of-the-password into a local: not decided by the small-length rule")
+                continue
+            if e[2] in ("tinyjambu_hmac_init", "tinyjambu_hmac_reinit", "tinyjambu_hmac_finalize") and tuple(e[3][1:3]) != (PW, PL):
+                src = [h for h in hashes if h[1] < e[1] and h[3][0] == e[3][1]]
+                if not src or e[3][2] != "32":
+                    if str(e[3][1]).startswith("alloca"):
+                        raise Broken("tinyjambu_pbkdf2: a PRF keyed with a local buffer that is not the password's digest: not decided by the small-length rule")
+                    fixed.append(e)
+                    continue
+                lo = ex._range(p, Lf.s(A["passwordlen"]))[0]
+                if lo < 65:
+                    return "the password is replaced by its digest on a path where it may be as short as %d bytes: HMAC uses a key of at most 64 bytes as it is" % lo
+                if e[4] is None or tuple(tuple(b_) for b_ in e[4]) != bytes_sym("DIGEST", src[-1][1], 32):
+                    return "the buffer that held the password's digest was overwritten before a PRF is keyed with it"
+                fixed.append(e[:3] + ((e[3][0], PW, PL) + tuple(e[3][3:]),) + e[4:])
+                continue
+            fixed.append(e)
+        evs = fixed
+    if any(e[2] == "tinyjambu_clean" and not str(e[3][0]).startswith("alloca") for e in calls(p)):
+        raise Broken("tinyjambu_pbkdf2: a wipe of something other than a local: not decided by the small-length rule")
+    why = None
+    k = 0           # position in the transcript
+    want = {}
+    c_eff = max(cnt, 1)
+    nblocks = (L + 31) // 32
+    for i in range(1, nblocks + 1):
+        acc = None
+        prev = None
+        for j in range(1, c_eff + 1):
+            seg = evs[k: k + (4 if j == 1 else 3)]
+            names = [e[2] for e in seg]
+            if j == 1:
+                okn = len(seg) == 4 and names[0] in START and names[1:] == ["tinyjambu_hmac_update", "tinyjambu_hmac_update", "tinyjambu_hmac_finalize"]
+            else:
+                okn = len(seg) == 3 and names[0] in START and names[1:] == ["tinyjambu_hmac_update", "tinyjambu_hmac_finalize"]
+            if not okn:
+                why = "block %d, PRF %d of %d: the HMAC calls are %s" % (i, j, c_eff, [n_.replace("tinyjambu_hmac_", "") for n_ in names])
+                break
+            st = seg[0][3][0]
+            fin = seg[-1]
+            if tuple(seg[0][3][1:3]) != (PW, PL) or tuple(fin[3][1:3]) != (PW, PL) or any(e[3][0] != st for e in seg):
+                why = "block %d, PRF %d: the HMAC is not keyed with (password, passwordlen) on one state at start and finalize" % (i, j)
+                break
+            if j == 1:
+                be = tuple(tuple(gf2.const_word((i >> (8 * (3 - b_))) & 0xFF, 8)) for b_ in range(4))
+                if tuple(seg[1][3][1:3]) != (SALT, SL):
+                    why = "block %d: the first update is (%s, %s), expected (salt, saltlen)" % ((i,) + tuple(seg[1][3][1:3]))
+                elif seg[2][3][2] != "4" or seg[2][4] is None or tuple(tuple(b_) for b_ in seg[2][4]) != be:
+                    why = "block %d: the second update is not the 4 big-endian bytes of the block number %d (%s)" % (i, i, first_byte_diff(seg[2][4], be) if seg[2][3][2] == "4" else "length %s" % seg[2][3][2])
+            else:
+                if seg[1][3][2] != "32" or seg[1][4] is None or tuple(tuple(b_) for b_ in seg[1][4]) != prev:
+                    why = "block %d, PRF %d: the update is not the 32 bytes of the previous PRF output" % (i, j)
+            if why:
+                break
+            mac = bytes_sym("MAC", fin[1], 32)
+            prev = mac
+            acc = mac if acc is None else tuple(tuple(gf2.wxor(list(a_), list(b_))) for a_, b_ in zip(acc, mac))
+            k += len(seg)
+        if why:
+            break
+        for b_ in range(min(32, L - 32 * (i - 1))):
+            want[32 * (i - 1) + b_] = acc[b_]
+    if why is None and k != len(evs):
+        why = "after the last block %d more HMAC calls follow (%s)" % (len(evs) - k, [e[2].replace("tinyjambu_hmac_", "") for e in evs[k:k + 4]])
+    outs = mode.outs_of(p)
+    if why is None:
+        for b_ in range(L):
+            got = outs.get((OUTP, b_))
+            if got is not None and any(x_ is gf2.TOP for x_ in got):
+                raise Broken("tinyjambu_pbkdf2: an output byte is not representable in the term domain: not decided by the small-length rule")
+            if got is None or tuple(got) != tuple(want[b_]):
+                why = "output byte %d is %s, expected %s" % (b_, gf2.describe(got[0]) if got else "not written", gf2.describe(want[b_][0]))
+                break
+    if why is None and [k_ for k_ in outs if k_[0] == OUTP and not 0 <= k_[1] < L]:
+        why = "writes outside out[0, outlen)"
+    return why
+
+
 def check_pbkdf2_small(ck_ob, mod, label, thorough=False):
     """tinyjambu_pbkdf2 as straight paths: iteration count in {0, 1, 2, 3, 5} x EVERY outlen up to a bound - count and length concrete, data
     symbolic, HMAC uninterpreted.  Compared with RFC 8018: per block i = 1.. the PRF transcript start(P); update(S); update(INT32BE(i));
@@ -907,71 +995,15 @@ def check_pbkdf2_small(ck_ob, mod, label, thorough=False):
                 # a bottom-tested loop has no test at its head to decide: with count and length concrete every block is simply followed
                 ex = irx.Exec(f, Handler(), havoc="auto", auto=True, unroll=True, split_max=33, arg_consts={oi: L, ci: cnt})
                 ps = ex.run(max_paths=50)
-            if len(ps) != 1 or ps[0].end[0] != "ret":
-                raise Broken("tinyjambu_pbkdf2: with count %d and outlen %d the function is not one straight path (%d paths): not decided by the small-length rule" % (cnt, L, len(ps)))
-            p = ps[0]
-            if any(e[0] in ("cond-data", "load-unknown", "store-unknown", "load-sym", "out-sym", "read-uninit", "VARMEM") for e in p.events):
+            if not ps or len(ps) > 4 or any(q_.end[0] != "ret" for q_ in ps):
+                raise Broken("tinyjambu_pbkdf2: with count %d and outlen %d the function is not a few straight paths (%d paths): not decided by the small-length rule" % (cnt, L, len(ps)))
+            for p in ps:
+              # (several paths only where the code tests a length that stays symbolic here - the password length: each class is one straight path)
+              if any(e[0] in ("cond-data", "load-unknown", "store-unknown", "load-sym", "out-sym", "read-uninit", "VARMEM") for e in p.events):
                 raise Broken("tinyjambu_pbkdf2: with count %d and outlen %d the path has accesses, copies or data branches the evaluation does not resolve" % (cnt, L))
-            npaths += 1
-            evs = [e for e in calls(p) if e[2] not in ("tinyjambu_hmac_free", "tinyjambu_clean")]
-            if any(e[2] == "tinyjambu_clean" and not str(e[3][0]).startswith("alloca") for e in calls(p)):
-                raise Broken("tinyjambu_pbkdf2: a wipe of something other than a local: not decided by the small-length rule")
-            why = None
-            k = 0           # position in the transcript
-            want = {}
-            c_eff = max(cnt, 1)
-            nblocks = (L + 31) // 32
-            for i in range(1, nblocks + 1):
-                acc = None
-                prev = None
-                for j in range(1, c_eff + 1):
-                    seg = evs[k: k + (4 if j == 1 else 3)]
-                    names = [e[2] for e in seg]
-                    if j == 1:
-                        okn = len(seg) == 4 and names[0] in START and names[1:] == ["tinyjambu_hmac_update", "tinyjambu_hmac_update", "tinyjambu_hmac_finalize"]
-                    else:
-                        okn = len(seg) == 3 and names[0] in START and names[1:] == ["tinyjambu_hmac_update", "tinyjambu_hmac_finalize"]
-                    if not okn:
-                        why = "block %d, PRF %d of %d: the HMAC calls are %s" % (i, j, c_eff, [n_.replace("tinyjambu_hmac_", "") for n_ in names])
-                        break
-                    st = seg[0][3][0]
-                    fin = seg[-1]
-                    if tuple(seg[0][3][1:3]) != (PW, PL) or tuple(fin[3][1:3]) != (PW, PL) or any(e[3][0] != st for e in seg):
-                        why = "block %d, PRF %d: the HMAC is not keyed with (password, passwordlen) on one state at start and finalize" % (i, j)
-                        break
-                    if j == 1:
-                        be = tuple(tuple(gf2.const_word((i >> (8 * (3 - b_))) & 0xFF, 8)) for b_ in range(4))
-                        if tuple(seg[1][3][1:3]) != (SALT, SL):
-                            why = "block %d: the first update is (%s, %s), expected (salt, saltlen)" % ((i,) + tuple(seg[1][3][1:3]))
-                        elif seg[2][3][2] != "4" or seg[2][4] is None or tuple(tuple(b_) for b_ in seg[2][4]) != be:
-                            why = "block %d: the second update is not the 4 big-endian bytes of the block number %d (%s)" % (i, i, first_byte_diff(seg[2][4], be) if seg[2][3][2] == "4" else "length %s" % seg[2][3][2])
-                    else:
-                        if seg[1][3][2] != "32" or seg[1][4] is None or tuple(tuple(b_) for b_ in seg[1][4]) != prev:
-                            why = "block %d, PRF %d: the update is not the 32 bytes of the previous PRF output" % (i, j)
-                    if why:
-                        break
-                    mac = bytes_sym("MAC", fin[1], 32)
-                    prev = mac
-                    acc = mac if acc is None else tuple(tuple(gf2.wxor(list(a_), list(b_))) for a_, b_ in zip(acc, mac))
-                    k += len(seg)
-                if why:
-                    break
-                for b_ in range(min(32, L - 32 * (i - 1))):
-                    want[32 * (i - 1) + b_] = acc[b_]
-            if why is None and k != len(evs):
-                why = "after the last block %d more HMAC calls follow (%s)" % (len(evs) - k, [e[2].replace("tinyjambu_hmac_", "") for e in evs[k:k + 4]])
-            outs = mode.outs_of(p)
-            if why is None:
-                for b_ in range(L):
-                    got = outs.get((OUTP, b_))
-                    if got is not None and any(x_ is gf2.TOP for x_ in got):
-                        raise Broken("tinyjambu_pbkdf2: an output byte is not representable in the term domain: not decided by the small-length rule")
-                    if got is None or tuple(got) != tuple(want[b_]):
-                        why = "output byte %d is %s, expected %s" % (b_, gf2.describe(got[0]) if got else "not written", gf2.describe(want[b_][0]))
-                        break
-            if why is None and [k_ for k_ in outs if k_[0] == OUTP and not 0 <= k_[1] < L]:
-                why = "writes outside out[0, outlen)"
-            if why is not None and bad is None:
+              npaths += 1
+              why = _pbkdf2_small_path(f, ex, p, cnt, L, A, PW, PL, SALT, SL, OUTP, START)
+              if why is not None and bad is None:
                 bad = ((cnt, L), why)
     ck_ob(bad is None, "SMALL", f.name, "pbkdf2-small[%s]" % label,
           "count in %s x every outlen up to %d (%d straight paths): the PRF transcript of every block (password key, salt, INT32BE(block number), chained 32-byte outputs, max(count,1) PRFs) "
@@ -1007,6 +1039,10 @@ def check_pbkdf2(ck_ob, mod, label):
     ex = irx.Exec(f, Handler(), havoc="auto", auto=True, split_max=32, word_phis=wp, fresh_per_entry=True)
     ps = ex.run(max_paths=4000)
     no_data_branches(f, ps)
+    if any(e[2] == "tinyjambu_hash" for p_ in ps for e in calls(p_)):
+        # (keying with the digest of a long password is keying with the password; whether it is done only for passwords longer than the
+        # HMAC block, and the digest kept intact, is decided by the small-length rule)
+        raise Broken("tinyjambu_pbkdf2: the password is pre-processed by a hash call: this shape is not analysed by the per-class rule")
     outer = [l for l in f.loops if l["parent"] == -1 and any(f.insts[i].op == "phi" and (f.insts[i].get("ty") or "").endswith("*") for i in f.blocks[l["header"]].insts)]
     outer = [l for l in outer if l["btc"].get("k") == "cnc"] or outer
     if not outer:
